@@ -108,6 +108,18 @@ def rw_split_channel(rng, spec):
     return s, {'__split__': (c['name'], k)}, 1.0
 
 
+def rw_rename_sample_local(rng, spec):
+    """a sample renamed in ONE channel only (samples tie nothing across channels — parameters are shared through modifier names — so the
+    likelihood is unchanged; what does change is which yields a per-sample-name bookkeeping would lump together)"""
+    s = copy.deepcopy(spec)
+    c = rng.choice(s['channels'])
+    cand = [sm for sm in c['samples'] if sm['name'] != 'signal']
+    if not cand: return s, {}, 1.0
+    sm = rng.choice(cand)
+    sm['name'] = 'loc_' + sm['name']
+    return s, {}, 1.0
+
+
 def rw_scale_signal(rng, spec):
     """every sample carrying the POI is scaled by k (its variations too); mu -> mu / k"""
     s = copy.deepcopy(spec); k = rng.choice([0.5, 2.0, 4.0])
@@ -220,7 +232,7 @@ def fitted_points(pyhf, m, data, mu):
 
 
 REWRITES = {'split-sample': rw_split_sample, 'permute': rw_permute, 'rename': rw_rename, 'zero-sample': rw_zero_sample, 'null-systematic': rw_null_systematic,
-            'split-channel': rw_split_channel, 'scale-signal': rw_scale_signal}
+            'split-channel': rw_split_channel, 'scale-signal': rw_scale_signal, 'rename-sample-in-one-channel': rw_rename_sample_local}
 
 
 def map_point(m0, m1, p0, ren, k):
